@@ -78,6 +78,11 @@ func lifecycleCheck(h []event, execErr error, setupRejected bool) (string, strin
 			if sawBC && !sawAC {
 				return bad("stack callback between BeforeScriptChange and AfterScriptChange")
 			}
+			if phase == 0 && sawAO && !sawBC && e.kind == evPUb {
+				// documented order: the P2SH hand-over pushes come after the script change; between
+				// AfterExecuteOpcode and the script change only the alt-stack clean-up (pops) is tolerated
+				return bad("stack push between AfterExecuteOpcode and the script change")
+			}
 			if e.kind == evPUb {
 				pendPush, pushArg = true, e.arg
 			} else {
@@ -98,6 +103,9 @@ func lifecycleCheck(h []event, execErr error, setupRejected bool) (string, strin
 			pendPop = false
 			if phase == 1 {
 				popPairsAfterAE++
+			}
+			if phase == 0 && sawAO && !sawBC && e.st != nil && h[i-1].st != nil && len(e.st.data) != len(h[i-1].st.data) {
+				return bad("data-stack pop between AfterExecuteOpcode and the script change (only the alt-stack clean-up happens there)")
 			}
 		case evAS:
 			if !inStep || !sawBO || pendPush || pendPop || (sawBC && !sawAC) || phase != 0 {
